@@ -21,7 +21,7 @@ def configs(reads, psu, maxphot, th):
                            MaxHer=(2,), MaxPhot=maxphot, PSU=psu, DispMin=2)
     tmpl = cc.consts_of(Scenario="tmpl", NObj=3, Targets={1, 2, 3}, PNu=3, Numeric=True, MaxLen=6, MaxAnc=3, AddPairs={(1, 2), (1, 3), (2, 3)},
                         TmplLoss=True, MaxHer=(1, 2, 1), MaxAdds=2, Kinds={"herald", "add", "probeall"} | reads, Ordered=False,
-                        HeraldNs={0, 1}, MaxPhot=maxphot, PSU=psu, DispMin=2, MaxRej=0)
+                        HeraldNs={0, 1}, MaxPhot=min(maxphot, 2), PSU=psu, DispMin=2, MaxRej=0)     # 3 user photons + herald photons + loss lines overflow TLC's 32-bit integers
     bunch = cc.consts_of(NUs={2}, Numeric=True, MaxLen=3, MaxRej=0, Kinds={"bs", "herald"} | reads, Rids={1}, Convs={"Rx", "H"}, Lqs={0, 1},
                          HeraldNs={2}, MaxHer=(1,), MaxPhot=4, PSU=psu, DispMin=1)
     # every mode heralded: zero visible modes, the only input is the empty state
